@@ -295,7 +295,7 @@ def table_param(row=False, extra_meta=False):
         for _, u_ in cols:
             path.assume(*getattr(u_, "sym_facts", []))
         n = z3.Int("n_samples")
-        path.assume(n >= 1)
+        path.assume(n >= 0)            # an EMPTY table (e.g. an all-False mask) is a table too: names, units and metadata are kept
         meta = PyDict([("t_ref", A.time_obj(z3.Real("t_ref_bmjd"))), ("poly_trend", 1), ("n_offsets", 0)])
         if extra_meta:
             meta = meta.set("run_label", Opaque("user-meta-value"))
@@ -374,7 +374,7 @@ UNITS_KEPT = " and ".join(f"result.tbl['{c}'].unit is self.tbl['{c}'].unit" for 
 
 def int_key(ex, path, name):
     k = z3.Int("key")
-    path.assume(0 <= k, k < z3.Int("n_samples"))
+    path.assume(-z3.Int("n_samples") <= k, k < z3.Int("n_samples"))      # negative keys count from the end
     return k
 
 
@@ -391,7 +391,9 @@ def mask_key(ex, path, name):
 flow = [
     Contract(S + "__getitem__", PROPERTY, params={"self": samples_self(), "key": int_key}, cases=[{"_name": "int"}],
              ensures={"metadata-kept": META_KEPT, "units-kept": UNITS_KEPT, "same-columns": "list(result.tbl.colnames) == list(self.tbl.colnames)",
-                      "that-member-row": " and ".join(f"result.tbl['{c}'].value[0] == self.tbl['{c}'].value[key]" for c in ALLP)}),
+                      "exactly-one-row": "len(result.tbl['P'].value) == 1",
+                      "that-member-row": " and ".join(f"result.tbl['{c}'].value[0] == self.tbl['{c}'].value[key if key >= 0 else key + len(self.tbl['P'].value)]"
+                                                      for c in ALLP)}),
     Contract(S + "__getitem__", PROPERTY, params={"self": samples_self(), "key": slice_key}, cases=[{"_name": "slice"}],
              ensures={"metadata-kept": META_KEPT, "units-kept": UNITS_KEPT, "same-columns": "list(result.tbl.colnames) == list(self.tbl.colnames)",
                       "the-selected-rows": " and ".join(f"all(result.tbl['{c}'].value[i] == self.tbl['{c}'].value[key.start + i] for i in range(key.stop - key.start))"
